@@ -160,11 +160,11 @@ theorem stageFn_wf (c : StageCfg) (s : StageSt) (h : StageWF c s) : StageWF c (s
   unfold stageFn
   cases hk : c.kind <;> simp only [hk] at h ⊢
   · simp only [halfFn]; exact h
-  · obtain ⟨hden, hstep, hclk, hpp, hadv⟩ := h
+  · obtain ⟨hden, hstep, hclk, hpp, hadv, htaps⟩ := h
     simp only [clockedFn]
     split
-    · exact ⟨hden, hstep, hclk, hpp, hadv⟩
-    · exact ⟨hden, hstep, Nat.mod_lt _ hden, hpp, hadv⟩
+    · exact ⟨hden, hstep, hclk, hpp, hadv, htaps⟩
+    · exact ⟨hden, hstep, Nat.mod_lt _ hden, hpp, hadv, htaps⟩
   · obtain ⟨hL, hT, hlen, hclk, hbl, hisz, hok⟩ := h
     simp only [dftFn]
     split
@@ -193,7 +193,7 @@ theorem stageFn_live (c : StageCfg) (s : StageSt) (h : StageWF c s) (hocc : s.is
     have hn : 1 ≤ numIn c s := by unfold numIn; omega
     have := half_two_no_le c s h1
     simp only; omega
-  · obtain ⟨hden, hstep, hclk, hpp, hadv⟩ := h
+  · obtain ⟨hden, hstep, hclk, hpp, hadv, htaps⟩ := h
     have hn : 1 ≤ numIn c s := by unfold numIn; omega
     have hne : (c.poly0 && numIn c s == 0) = false := by
       have : (numIn c s == 0) = false := by simp; omega
@@ -233,7 +233,7 @@ theorem stageFn_gain (c : StageCfg) (s : StageSt) (h : StageWF c s) :
     rw [(halfFn_spec c s h1).1, (halfFn_spec c s h1).2]
     have := half_two_no_le c s h1
     simp only; omega
-  · obtain ⟨hden, hstep, hclk, hpp, hadv⟩ := h
+  · obtain ⟨hden, hstep, hclk, hpp, hadv, htaps⟩ := h
     simp only [clockedFn]
     split
     · simp
